@@ -3,14 +3,21 @@ from __future__ import annotations
 
 import itertools
 import math
+import os
 
 from hypothesis import strategies as st
 
 from ..core import Info, close, require, subcheck
 from .. import declm
+from .. import declayout as dl
 
 NEG_INF = float("-inf")
 CAP = 12
+# Class "cached tensors edited in place by the caller" (sub-check `distribution`): with cache_samples=True the unrepaired
+# library keeps references to the caller's tensors and answers log_prob(value) from the cache after `value` was edited in
+# place (replays/C07/distribution-cache-aliases-edited-value.json, fixes/C07-distribution-cache-aliases-caller-tensors.diff).
+# Off until that fix is merged, so that the committed check stays quiet; VERIF_C07_CACHE_ALIASING=1 turns it on.
+ENABLE_CACHE_ALIASING = os.environ.get("VERIF_C07_CACHE_ALIASING", "0") == "1"
 
 
 def _prod(xs):
@@ -56,21 +63,39 @@ def _tensor_cases(tier):
         eos = draw(st.sampled_from([1 % V, None, 0, V - 1, V, -1]))
         n = _prod(shape)
         hyp = draw(st.lists(st.integers(-2, V + 1), min_size=n, max_size=n))
-        if eos is not None and draw(st.booleans()):
+        if eos is not None and draw(st.sampled_from([True, True, False])):
             # make eos frequent enough that it appears inside sequences
             mask = draw(st.lists(st.integers(0, 3), min_size=n, max_size=n))
             hyp = [eos if m == 0 else h for h, m in zip(hyp, mask)]
         logits = draw(st.lists(st.integers(-16, 16), min_size=n * V, max_size=n * V))
-        return {"shape": shape, "dim": dim, "V": V, "eos": eos, "hyp": hyp, "logits": logits,
+        case = {"shape": shape, "dim": dim, "V": V, "eos": eos, "hyp": hyp, "logits": logits,
                 "module": draw(st.booleans())}
+        # memory layouts of the two tensor arguments (same values); float64 scores; scores scaled by 2**8 / 2**16
+        case["layouts"] = {"logits": draw(st.sampled_from(dl.LAYOUT_CHOICES)), "hyp": draw(st.sampled_from(dl.LAYOUT_CHOICES))}
+        case["dtype"] = draw(st.sampled_from(["float32", "float32", "float64"]))
+        case["scale"] = draw(st.sampled_from([0, 0, 0, 8, 16]))
+        # what the statement says is ignored - positions after the first eos, out-of-vocabulary positions - holds garbage:
+        # junk ids (after eos) and non-finite / huge scores (after eos and at out-of-vocabulary positions)
+        case["junk"] = draw(st.sampled_from([None, None, {"id": -1, "score": "nan"}, {"id": 1 << 40, "score": "-inf"},
+                                             {"id": -(1 << 62), "score": "inf"}, {"id": (1 << 63) - 1, "score": 1e30},
+                                             {"id": None, "score": "nan"}]))
+        # a stride-0 (expanded) view along a non-sequence dimension whose entries are made identical
+        others = [d for d in range(rank) if d != pos and shape[d] >= 2]
+        if others and draw(st.sampled_from([False, False, True])):
+            case["expand"] = {"which": draw(st.sampled_from(["logits", "hyp", "both"])), "dim": draw(st.sampled_from(others))}
+        return case
 
     return _s()
 
 
 @subcheck("C07", "seq_tensor", _tensor_cases, 1500, 40000,
           doc="sequence_log_probs on rank 2..4 token tensors (sequence dim anywhere, negative dims, T 0..5, tokens incl. out-of-vocabulary "
-              "and negative ids, eos unset / in-vocabulary / out-of-vocabulary id) vs an explicit loop over the definition",
-          required_classes=["eos_inside_with_tokens_after", "oov_tokens", "rank_4", "negative_dim", "empty_sequence_dim"])
+              "and negative ids, eos unset / in-vocabulary / out-of-vocabulary id) vs an explicit loop over the definition. Both tensors "
+              "also as offset / column-slice / transposed / strided / expanded (stride 0) views; junk ids after the first eos and NaN / "
+              "+-inf / 1e30 scores after the first eos and at out-of-vocabulary positions; float64 scores; scores scaled by 2**8 / 2**16",
+          required_classes=["eos_inside_with_tokens_after", "oov_tokens", "rank_4", "negative_dim", "empty_sequence_dim",
+                            "layout_offset", "layout_transposed", "layout_col_slice", "layout_strided", "layout_expanded",
+                            "garbage_in_ignored_positions", "junk_ids_after_eos", "float64_logits", "extreme_logits"])
 def _tensor_check(case):
     import torch
     from pydrobert.torch.functional import sequence_log_probs
@@ -80,17 +105,56 @@ def _tensor_check(case):
     rank = len(shape)
     pos = dim % rank
     T = shape[pos]
-    hyp = torch.tensor(case["hyp"], dtype=torch.long).view(shape)
-    logits = (torch.tensor(case["logits"], dtype=torch.float32) / 4).view(shape + [V])
-    if case["module"]:
-        got = SequenceLogProbabilities(dim, eos)(logits, hyp)
+    cl = set()
+    scale = 2 ** case.get("scale", 0)
+    dtype = torch.float64 if case.get("dtype") == "float64" else torch.float32
+    hyp_flat, log_flat = list(case["hyp"]), [v * scale for v in case["logits"]]
+    hyp = torch.tensor(hyp_flat, dtype=torch.long).view(shape)
+    logits = (torch.tensor(log_flat, dtype=dtype) / 4).view(shape + [V])
+    ex = case.get("expand")
+    if ex is not None:
+        # identical entries along one non-sequence dimension (the lists the oracle reads are rebuilt from the tensors)
+        d = ex["dim"]
+        if ex["which"] in ("logits", "both"):
+            logits = logits.narrow(d, 0, 1).expand(shape + [V]).contiguous()
+        if ex["which"] in ("hyp", "both"):
+            hyp = hyp.narrow(d, 0, 1).expand(shape).contiguous()
+        hyp_flat, log_flat = hyp.flatten().tolist(), [int(v) for v in (logits * 4).flatten().tolist()]
+    hyp_in, logits_in = hyp.clone(), logits.clone()
+    junk = case.get("junk")
+    if junk is not None and hyp.numel():
+        # positions the statement says are ignored: after the first eos (ids and scores), out-of-vocabulary ids (scores)
+        moved = hyp.movedim(pos, -1)
+        after = torch.zeros_like(moved, dtype=torch.bool)
+        if eos is not None:
+            after = ((moved == eos).long().cumsum(-1) - (moved == eos).long()) > 0
+        oov = (moved < 0) | (moved >= V)
+        hyp_j, log_j = hyp_in.movedim(pos, -1), logits_in.movedim(pos, -2)
+        if after.any() or oov.any():
+            cl.add("garbage_in_ignored_positions")
+        if junk["id"] is not None and after.any():
+            hyp_j[after] = junk["id"]
+            cl.add("junk_ids_after_eos")
+        log_j[after | oov] = float(junk["score"])
+    lay = case.get("layouts", {})
+    if ex is not None and ex["which"] in ("logits", "both") and junk is None:
+        logits_in = logits_in.narrow(ex["dim"], 0, 1).expand(shape + [V])
+        cl.add("layout_expanded")
     else:
-        got = sequence_log_probs(logits, hyp, dim, eos)
+        logits_in = dl.relayout(logits_in, lay.get("logits", "contiguous"))
+    if ex is not None and ex["which"] in ("hyp", "both") and junk is None:
+        hyp_in = hyp_in.narrow(ex["dim"], 0, 1).expand(shape)
+        cl.add("layout_expanded")
+    else:
+        hyp_in = dl.relayout(hyp_in, lay.get("hyp", "contiguous"))
+    if case["module"]:
+        got = SequenceLogProbabilities(dim, eos)(logits_in, hyp_in)
+    else:
+        got = sequence_log_probs(logits_in, hyp_in, dim, eos)
     out_shape = shape[:pos] + shape[pos + 1:]
     require(list(got.shape) == out_shape, "result shape", list(got.shape), out_shape)
-    cl = set()
-    hyp_l = _unflatten(case["hyp"], shape)
-    log_l = _unflatten([v / 4 for v in case["logits"]], shape + [V])
+    hyp_l = _unflatten(hyp_flat, shape)
+    log_l = _unflatten([v / 4 for v in log_flat], shape + [V])
 
     def pick(nested, idx):
         for i in idx:
@@ -124,6 +188,11 @@ def _tensor_check(case):
         cl.add("eos_out_of_vocabulary")
     if eos is None:
         cl.add("eos_unset")
+    cl.update(dl.layout_classes(lay.values()))
+    if case.get("dtype") == "float64":
+        cl.add("float64_logits")
+    if case.get("scale"):
+        cl.add("extreme_logits")
     return Info(nontrivial="eos_inside_with_tokens_after" in cl, classes=sorted(cl))
 
 
@@ -146,8 +215,15 @@ def _packed_cases(tier):
         hyp = draw(st.lists(st.lists(st.integers(-2, V + 1), min_size=Tm, max_size=Tm), min_size=N, max_size=N))
         logits = draw(st.lists(st.lists(st.lists(st.integers(-16, 16), min_size=V, max_size=V), min_size=Tm, max_size=Tm),
                                min_size=N, max_size=N))
-        return {"N": N, "V": V, "lens": lens, "enforce_sorted": sorted_, "dim": dim, "hyp": hyp, "logits": logits,
+        case = {"N": N, "V": V, "lens": lens, "enforce_sorted": sorted_, "dim": dim, "hyp": hyp, "logits": logits,
                 "pass_unused_eos": draw(st.booleans())}
+        # memory layout of hyp and of the packed data tensor, float64 scores, junk ids in hyp past each length (those
+        # positions are not part of the packed sequences) and non-finite scores at out-of-vocabulary positions
+        case["layouts"] = {"hyp": draw(st.sampled_from(dl.LAYOUT_CHOICES)), "data": draw(st.sampled_from(dl.LAYOUT_CHOICES))}
+        case["dtype"] = draw(st.sampled_from(["float32", "float32", "float64"]))
+        case["junk"] = draw(st.sampled_from([None, None, {"id": -1, "score": "nan"}, {"id": 1 << 40, "score": "-inf"},
+                                             {"id": -(1 << 62), "score": "inf"}, {"id": (1 << 63) - 1, "score": 1e30}]))
+        return case
 
     return _s()
 
@@ -155,8 +231,11 @@ def _packed_cases(tier):
 @subcheck("C07", "seq_packed", _packed_cases, 1000, 20000,
           doc="sequence_log_probs on a PackedSequence of logits (sorted / unsorted lengths, hyp as (T,N) or (N,T), dims given positively "
               "or negatively) == loop over the valid steps == the padded call with the positions beyond each length set to an "
-              "out-of-vocabulary id",
-          required_classes=["two_distinct_lengths", "unsorted_lengths", "negative_dim"])
+              "out-of-vocabulary id. hyp and the packed data tensor also as offset / column-slice / transposed / strided views; junk ids in "
+              "hyp past each length, non-finite scores at out-of-vocabulary positions; float64 scores",
+          required_classes=["two_distinct_lengths", "unsorted_lengths", "negative_dim", "layout_offset", "layout_transposed",
+                            "layout_col_slice", "layout_strided", "garbage_at_oov_positions", "junk_ids_past_length",
+                            "float64_logits"])
 def _packed_check(case):
     import torch
     from torch.nn.utils.rnn import pack_padded_sequence
@@ -164,10 +243,27 @@ def _packed_check(case):
 
     N, V, lens, dim = case["N"], case["V"], case["lens"], case["dim"]
     Tm = len(case["hyp"][0])
+    cl = set()
+    lay = case.get("layouts", {})
+    dtype = torch.float64 if case.get("dtype") == "float64" else torch.float32
     hyp_nt = torch.tensor(case["hyp"], dtype=torch.long).view(N, Tm)
-    logits_ntv = (torch.tensor(case["logits"], dtype=torch.float32) / 4).view(N, Tm, V)
-    packed = pack_padded_sequence(logits_ntv.transpose(0, 1), torch.tensor(lens), enforce_sorted=case["enforce_sorted"])
-    hyp = hyp_nt if dim % 2 == 1 else hyp_nt.t().contiguous()
+    logits_ntv = (torch.tensor(case["logits"], dtype=dtype) / 4).view(N, Tm, V)
+    junk = case.get("junk")
+    logits_in, hyp_in = logits_ntv.clone(), hyp_nt.clone()
+    if junk is not None:
+        oov = (hyp_nt < 0) | (hyp_nt >= V)
+        past = torch.arange(Tm).unsqueeze(0) >= torch.tensor(lens).unsqueeze(1)
+        logits_in[oov | past] = float(junk["score"])
+        hyp_in[past] = junk["id"]
+        if bool((oov & ~past).any()):
+            cl.add("garbage_at_oov_positions")
+        if bool(past.any()):
+            cl.add("junk_ids_past_length")
+    packed = pack_padded_sequence(logits_in.transpose(0, 1), torch.tensor(lens), enforce_sorted=case["enforce_sorted"])
+    if lay.get("data", "contiguous") != "contiguous":
+        packed = torch.nn.utils.rnn.PackedSequence(dl.relayout(packed.data, lay["data"]), packed.batch_sizes,
+                                                   packed.sorted_indices, packed.unsorted_indices)
+    hyp = dl.relayout(hyp_in if dim % 2 == 1 else hyp_in.t().contiguous(), lay.get("hyp", "contiguous"))
     # eos is documented to be ignored for packed input; only an id that never occurs inside a valid length is passed
     eos = None
     if case["pass_unused_eos"]:
@@ -187,7 +283,9 @@ def _packed_check(case):
                 float(got[n]), exp)
         require(close(float(got[n]), float(padded[n]), rel=1e-5, abs_=1e-5), "packed and padded input disagree (element %d)" % n,
                 float(got[n]), float(padded[n]))
-    cl = set()
+    cl.update(dl.layout_classes(lay.values()))
+    if case.get("dtype") == "float64":
+        cl.add("float64_logits")
     if len(set(lens)) >= 2:
         cl.add("two_distinct_lengths")
     if lens != sorted(lens, reverse=True):
@@ -215,7 +313,8 @@ def _walk_cases(tier):
 
     @st.composite
     def _s(draw):
-        spec = draw(declm.lm_specs(1, 3, max_cond=3, lo=-8, hi=8))
+        zero = draw(st.sampled_from([False, False, False, True]))
+        spec = draw(declm.lm_specs(2 if zero else 1, 3, max_cond=3, lo=-8, hi=8, zero_prob=zero))
         V, C = spec["V"], len(spec["cond"])
         kind = draw(st.sampled_from(["pos", "none", "pos", "neg"]))
         eos = None if kind == "none" else (draw(st.integers(0, V - 1)) if kind == "pos" else draw(st.integers(-V, -1)))
@@ -225,31 +324,36 @@ def _walk_cases(tier):
             max_iters = None
         batch = draw(st.sampled_from([3, None, 1, 2]))
         conds = draw(st.lists(st.integers(0, C - 1), min_size=batch or 1, max_size=batch or 1))
-        return {"lm": spec, "eos": eos, "max_iters": max_iters, "batch": batch, "conds": conds,
+        case = {"lm": spec, "eos": eos, "max_iters": max_iters, "batch": batch, "conds": conds,
                 "seed": draw(st.integers(0, 2 ** 31 - 1)), "wrapper_batched": draw(st.booleans()),
                 "validate_args": draw(st.sampled_from([None, True, False]))}
+        if draw(st.sampled_from([0, 0, 0, 0, 1])):
+            # extreme but legal magnitudes: logits of up to about +-1e6 (probabilities that round to exactly 0 and 1)
+            case["extreme"] = draw(st.sampled_from([10, 14, 18]))
+            spec["cond"] = [[v * 2 ** case["extreme"] for v in row] for row in spec["cond"]]
+        case["cond_layout"] = draw(st.sampled_from(["contiguous", "offset", "strided", "contiguous"]))
+        # call pattern on the RandomWalk / model objects: one judged walk on fresh objects; or the judged walk, another walk
+        # (other seed, other batch), the judged walk again - same seed, must be identical; or the same with train()/eval()
+        # switches; or a walk that dies half-way (the model refuses its second step) before the judged walk
+        case["pattern"] = draw(st.sampled_from(["fresh", "repeat", "repeat_modes", "abandoned_first"]))
+        case["other"] = {"seed": draw(st.integers(0, 2 ** 31 - 1)), "batch": draw(st.sampled_from([1, None, 2])),
+                         "cond": draw(st.integers(0, C - 1))}
+        return case
 
     return _s()
 
 
-@subcheck("C07", "walk", _walk_cases, 1200, 30000,
-          doc="RandomWalk over a HashLM (state only in prev; eos set incl. negative index / unset; max_iters 1..4|6 or unset; batch "
-              "None/1..3; generated torch seed): each path in vocabulary, ends at first eos or the step limit, reported log-prob == "
-              "pure-Python chain == distribution wrapper's log_prob of the returned paths",
-          required_classes=["elements_stop_at_different_steps", "eos_set", "eos_unset", "batch_none", "stopped_by_limit", "stateful_lm"])
-def _walk_check(case):
+def judge_walk(case, spec, lm, walk, conds, batch, T, seed, cl, chain, rel=1e-5, wrapper=True):
+    """One seeded walk on the given objects, judged against the statement. Returns (y, lens, lp)."""
     import torch
-    from pydrobert.torch.modules import RandomWalk
     from pydrobert.torch.distributions import SequentialLanguageModelDistribution
 
-    spec, conds, batch, T = case["lm"], case["conds"], case["batch"], case["max_iters"]
     V = spec["V"]
     eos = None if case["eos"] is None else case["eos"] % V
-    lm = declm.HashLM(spec, cap=CAP if T is None else None)
-    walk = RandomWalk(lm, case["eos"])
-    init = {"cond": torch.tensor(conds, dtype=torch.long)}
-    torch.manual_seed(case["seed"])
+    init = {"cond": dl.relayout(torch.tensor(conds, dtype=torch.long), case.get("cond_layout", "contiguous"))}
+    torch.manual_seed(seed)
     y, lens, lp = walk(dict(init), batch, T)
+    out = (y.clone(), lens.clone(), lp.clone())
     if batch is None:
         require(y.dim() == 1 and lens.dim() == 0 and lp.dim() == 0, "unbatched walk result shapes",
                 [list(y.shape), list(lens.shape), list(lp.shape)], "(S,), (), ()")
@@ -260,12 +364,12 @@ def _walk_check(case):
     S = y.size(0)
     if T is not None:
         require(S <= T, "more steps than max_iters", S, T)
-    cl = set()
     Ls = []
+    lens_l, lp_l = lens.tolist(), lp.tolist()
     for n in range(N):
-        L = int(lens[n])
+        L = int(lens_l[n])
         require(0 <= L <= S, "reported length outside [0, S]", L, S)
-        toks = [int(v) for v in y[:L, n]]
+        toks = y[:L, n].tolist()
         require(all(0 <= v < V for v in toks), "token outside the vocabulary", toks, V)
         ended = eos is not None and L > 0 and toks[-1] == eos
         if eos is not None:
@@ -275,12 +379,15 @@ def _walk_check(case):
             cl.add("stopped_by_limit")
         else:
             cl.add("stopped_by_eos")
-        exp = declm.py_chain(spec, conds[n], toks)
-        require(close(float(lp[n]), exp, rel=1e-5, abs_=2e-5), "reported log-probability != chain of the model on the path",
-                float(lp[n]), {"tokens": toks, "chain": exp})
+            if L >= 128:
+                cl.add("eos_after_127_steps")
+        exp = chain(conds[n], toks)
+        require(not math.isnan(lp_l[n]) and lp_l[n] > NEG_INF, "a sampled path has a non-finite reported log-probability", lp_l[n], "finite")
+        require(close(float(lp_l[n]), exp, rel=rel, abs_=2e-5), "reported log-probability != chain of the model on the path",
+                float(lp_l[n]), {"tokens": toks, "chain": exp})
         Ls.append(L)
     # the wrapper's log-probability of exactly these paths
-    if S >= 1:
+    if S >= 1 and wrapper:
         value = y.t().contiguous()  # (N, S)
         if eos is not None:
             # positions after the end are not valid: give them the documented filler (eos)
@@ -297,24 +404,88 @@ def _walk_check(case):
         require(list(full.shape) == [S, N, V], "shape of lm(path)", list(full.shape), [S, N, V])
         sl = sequence_log_probs(full, value.t(), 0, eos)
         for n in range(N):
-            require(close(float(sl[n]), float(lp[n]), rel=1e-5, abs_=2e-5),
+            require(close(float(sl[n]), float(lp[n]), rel=rel, abs_=2e-5),
                     "sequence_log_probs(lm(path), path) != the walk's reported log-probability", float(sl[n]), float(lp[n]))
         wl = dist.log_prob(value)
         require(list(wl.shape) == [N], "wrapper log_prob shape", list(wl.shape), [N])
         for n in range(N):
-            require(close(float(wl[n]), float(lp[n]), rel=1e-5, abs_=2e-5),
+            require(close(float(wl[n]), float(lp[n]), rel=rel, abs_=2e-5),
                     "distribution wrapper's log_prob of a walked path != the walk's reported log-probability",
                     float(wl[n]), float(lp[n]))
         if T is not None and S < T:
             cl.add("all_paths_shorter_than_limit")
     if len(set(Ls)) >= 2:
         cl.add("elements_stop_at_different_steps")
+    return out
+
+
+def _walk_equal(a, b):
+    import torch
+
+    (ya, la, pa), (yb, lb, pb) = a, b
+    if ya.shape != yb.shape or not torch.equal(la, lb) or not torch.equal(pa, pb):
+        return False
+    S = ya.size(0)
+    mask = torch.arange(S).view([S] + [1] * (ya.dim() - 1)) < la
+    return bool(((ya == yb) | ~mask).all())
+
+
+@subcheck("C07", "walk", _walk_cases, 1200, 30000,
+          doc="RandomWalk over a HashLM (state only in prev; eos set incl. negative index / unset; max_iters 1..4|6 or unset; batch "
+              "None/1..3; generated torch seed): each path in vocabulary, ends at first eos or the step limit, reported log-prob == "
+              "pure-Python chain == distribution wrapper's log_prob of the returned paths. Also models with zero-probability tokens "
+              "and with logits of +-1e6, and call patterns on ONE walk/model object: the judged walk, another walk, the judged walk "
+              "again with the same seed (must be identical), train()/eval() switches, a walk that died half-way before",
+          required_classes=["elements_stop_at_different_steps", "eos_set", "eos_unset", "batch_none", "stopped_by_limit", "stateful_lm",
+                            "zero_probability_tokens", "extreme_logits", "walk_repeated", "train_eval_toggled", "abandoned_walk"])
+def _walk_check(case):
+    import torch
+    from pydrobert.torch.modules import RandomWalk
+
+    spec, conds, batch, T = case["lm"], case["conds"], case["batch"], case["max_iters"]
+    V = spec["V"]
+    eos = None if case["eos"] is None else case["eos"] % V
+    lm = declm.HashLM(spec, cap=CAP if T is None else None)
+    walk = RandomWalk(lm, case["eos"])
+    cl = set()
+    pattern = case.get("pattern", "fresh")
+
+    def chain(c, toks):
+        return declm.py_chain(spec, c, toks)
+
+    if pattern == "abandoned_first":
+        cap, lm.cap = lm.cap, 0
+        try:
+            torch.manual_seed(case["other"]["seed"])
+            walk({"cond": torch.tensor([case["other"]["cond"]] * len(conds), dtype=torch.long)}, batch, max(T or CAP, 2))
+        except declm.StepCap:
+            cl.add("abandoned_walk")
+        lm.cap = cap
+    first = judge_walk(case, spec, lm, walk, conds, batch, T, case["seed"], cl, chain)
+    if pattern in ("repeat", "repeat_modes"):
+        o = case["other"]
+        if pattern == "repeat_modes":
+            walk.train(False)
+            cl.add("train_eval_toggled")
+        judge_walk(case, spec, lm, walk, [o["cond"]] * (o["batch"] or 1), o["batch"], T, o["seed"], set(), chain)
+        if pattern == "repeat_modes":
+            walk.train(True)
+        again = judge_walk(case, spec, lm, walk, conds, batch, T, case["seed"], set(), chain, wrapper=False)
+        require(_walk_equal(first, again), "the same seeded walk on the same object returns something else the second time",
+                [t.tolist() for t in again], [t.tolist() for t in first])
+        cl.add("walk_repeated")
     cl.add("eos_unset" if eos is None else "eos_set")
     cl.add("batch_none" if batch is None else "batch_%d" % batch)
     if T is None:
         cl.add("max_iters_unset")
     if spec["M"] >= 2:
         cl.add("stateful_lm")
+    if spec.get("ninf"):
+        cl.add("zero_probability_tokens")
+    if case.get("extreme") is not None:
+        cl.add("extreme_logits")
+    if case.get("cond_layout", "contiguous") != "contiguous":
+        cl.add("initial_state_layout_" + case["cond_layout"])
     return Info(nontrivial="elements_stop_at_different_steps" in cl, classes=sorted(cl))
 
 
@@ -334,34 +505,61 @@ def _dist_cases(tier):
 
     @st.composite
     def _s(draw):
-        spec = draw(declm.lm_specs(1, 3, max_cond=3, lo=-8, hi=8))
+        zero = draw(st.sampled_from([False, False, False, True]))
+        spec = draw(declm.lm_specs(2 if zero else 1, 3, max_cond=3, lo=-8, hi=8, zero_prob=zero))
         V, C = spec["V"], len(spec["cond"])
         kind = draw(st.sampled_from(["pos", "none", "pos", "neg"]))
-        eos = None if kind == "none" else (draw(st.integers(0, V - 1)) if kind == "pos" else draw(st.integers(-V, -1)))
         T = draw(st.sampled_from([2, 1, 3] + list(range(4, maxT + 1))))
         batch = draw(st.sampled_from([2, None, 1, 3]))
+        case = {"lm": spec}
+        if draw(st.sampled_from([0, 0, 0, 0, 0, 1])):
+            # a vocabulary at an implementation threshold, model expanded from a seed; the support has V**T rows
+            V = draw(st.sampled_from([16, 15, 17, 31, 32, 33]))
+            T = draw(st.sampled_from([1, 2])) if V <= 17 else 1
+            batch = draw(st.sampled_from([None, 1]))
+            C = draw(st.integers(1, 2))
+            case = {"lm": None, "lm_small": {"V": V, "M": draw(st.sampled_from([3, 5, 2])), "mult": draw(st.sampled_from([2, 1, 3])),
+                                             "C": C, "seed": draw(st.integers(0, 2 ** 31 - 1))}}
+        elif draw(st.sampled_from([0, 0, 0, 0, 1])):
+            case["extreme"] = draw(st.sampled_from([10, 14, 18]))
+            spec["cond"] = [[v * 2 ** case["extreme"] for v in row] for row in spec["cond"]]
+        eos = None if kind == "none" else (draw(st.integers(0, V - 1)) if kind == "pos" else draw(st.integers(-V, -1)))
         conds = draw(st.lists(st.integers(0, C - 1), min_size=batch or 1, max_size=batch or 1))
         if batch is None:
             conds = [0]
-        return {"lm": spec, "eos": eos, "max_iters": T, "batch": batch, "conds": conds,
-                "sample_shape": draw(st.sampled_from([[2], [], [1], [3], [2, 2]])),
-                "seed": draw(st.integers(0, 2 ** 31 - 1)), "cache": draw(st.booleans()),
-                "validate_args": draw(st.sampled_from([None, True, False]))}
+        case.update({"eos": eos, "max_iters": T, "batch": batch, "conds": conds,
+                     "sample_shape": draw(st.sampled_from([[2], [], [1], [3], [2, 2], [16], [17], [33], [4, 8]])),
+                     "seed": draw(st.integers(0, 2 ** 31 - 1)), "cache": draw(st.booleans()),
+                     "validate_args": draw(st.sampled_from([None, True, False]))})
+        # history of calls on the ONE distribution object after the basic checks (must not matter, cache on or off)
+        case["history"] = draw(st.sampled_from(["none", "A_B_A", "resample_then_A", "second_distribution_on_the_walk",
+                                                "edit_value_in_place", "edit_result_in_place"]))
+        case["seed2"] = draw(st.integers(0, 2 ** 31 - 1))
+        return case
 
     return _s()
 
 
 @subcheck("C07", "distribution", _dist_cases, 800, 15000,
           doc="SequentialLanguageModelDistribution over RandomWalk(HashLM): enumerate_support == the complete sequences (eos-filled), "
-              "log_prob(support) == chain, sums to one per batch element; samples (sample shapes (), (1,), (2,), (3,), (2,2); batch "
-              "None/1..3; caching on/off) lie in the support and log_prob(sample) == chain, also after clear_cache()",
-          required_classes=["sample_shape_empty", "batch_none", "batched", "sample_shorter_than_limit", "cache_on", "cache_off"])
+              "log_prob(support) == chain, sums to one per batch element; samples (sample shapes (), (1,), (2,), (3,), (2,2), (16,), "
+              "(17,), (33,), (4,8); batch None/1..3; caching on/off) lie in the support and log_prob(sample) == chain, also after "
+              "clear_cache(). Also models with zero-probability tokens / logits of +-1e6 / vocabularies of 15..33 expanded from a seed, "
+              "and call histories on the one distribution object: log_prob(A), log_prob(B), log_prob(A); a new sample before "
+              "log_prob(A); a second distribution on the same walk used in between; (behind ENABLE_CACHE_ALIASING) tensors handed "
+              "to / received from the distribution edited in place",
+          required_classes=["sample_shape_empty", "batch_none", "batched", "sample_shorter_than_limit", "cache_on", "cache_off",
+                            "zero_probability_tokens", "extreme_logits", "vocabulary_about_16", "vocabulary_about_32",
+                            "samples_16_or_more", "history_A_B_A", "history_resample_then_A",
+                            "history_second_distribution_on_the_walk"])
 def _dist_check(case):
     import torch
     from pydrobert.torch.modules import RandomWalk
     from pydrobert.torch.distributions import SequentialLanguageModelDistribution
 
     spec, conds, batch, T = case["lm"], case["conds"], case["batch"], case["max_iters"]
+    if spec is None:
+        spec = declm.expand_spec(case["lm_small"])
     V = spec["V"]
     eos = None if case["eos"] is None else case["eos"] % V
     lm = declm.HashLM(spec)
@@ -430,6 +628,67 @@ def _dist_check(case):
     cl.add("eos_unset" if eos is None else "eos_set")
     if len({tuple(int(v) for v in row) for row in flat}) >= 2:
         cl.add("distinct_samples")
+    if spec.get("ninf"):
+        cl.add("zero_probability_tokens")
+    if case.get("extreme") is not None:
+        cl.add("extreme_logits")
+    if V >= 15:
+        cl.add("vocabulary_about_16" if V <= 17 else "vocabulary_about_32")
+    if flat.size(0) >= 16:
+        cl.add("samples_16_or_more")
+
+    # -- call histories on the same distribution object: what log_prob returns must depend on its argument only
+    def chains(t):
+        fl = t.reshape(-1, t.size(-1))
+        return [declm.py_chain(spec, conds[i % nb], _first_eos_prefix([int(v) for v in fl[i]], eos)) for i in range(fl.size(0))]
+
+    def same(lp, t, what):
+        require(list(lp.shape) == list(t.shape[:-1]), what + ": shape", list(lp.shape), list(t.shape[:-1]))
+        for g, e in zip(lp.reshape(-1).tolist(), chains(t)):
+            require(close(g, e, rel=1e-5, abs_=2e-5), what + ": log_prob != chain of the model", g, {"value": t.tolist(), "chain": e})
+
+    hist = case.get("history", "none")
+    A = sample.clone()
+    if hist == "A_B_A":
+        torch.manual_seed(case["seed2"])
+        B = dist.sample(torch.Size(sshape)).clone()
+        dist.clear_cache()
+        same(dist.log_prob(A), A, "log_prob(A) before log_prob(B)")
+        same(dist.log_prob(B), B, "log_prob(B) after log_prob(A)")
+        same(dist.log_prob(A), A, "log_prob(A) after log_prob(B)")
+        cl.add("history_A_B_A")
+    elif hist == "resample_then_A":
+        torch.manual_seed(case["seed2"])
+        C_ = dist.sample(torch.Size(sshape))
+        same(dist.log_prob(A), A, "log_prob(A) after a newer sample was drawn")
+        same(dist.log_prob(C_), C_, "log_prob of the newer sample after log_prob(A)")
+        cl.add("history_resample_then_A")
+    elif hist == "second_distribution_on_the_walk":
+        other = SequentialLanguageModelDistribution(walk, None, None, T, cache_samples=True, validate_args=case["validate_args"])
+        same(dist.log_prob(A), A, "log_prob(A)")
+        torch.manual_seed(case["seed2"])
+        o = other.sample(torch.Size([2]))
+        other.log_prob(o)
+        same(dist.log_prob(A), A, "log_prob(A) after another distribution used the same walk")
+        cl.add("history_second_distribution_on_the_walk")
+    elif hist == "edit_value_in_place" and ENABLE_CACHE_ALIASING:
+        v = A.clone()
+        dist.clear_cache()  # (otherwise the cache still refers to the tensor of the basic checks, which nobody edits)
+        same(dist.log_prob(v), v, "log_prob(v)")
+        first = v.reshape(-1, S)[0]
+        new0 = (int(first[0]) + 1) % V
+        if V >= 2 and (S == T or eos is None or new0 == eos or eos in [int(x) for x in first[1:]]):
+            first[0] = new0  # the caller edits its own tensor in place (v is a view of it)
+            same(dist.log_prob(v), v, "log_prob(v) after v was edited in place")
+            cl.add("history_edit_value_in_place")
+            if case["cache"]:
+                cl.add("cached_value_edited_in_place")
+    elif hist == "edit_result_in_place" and ENABLE_CACHE_ALIASING:
+        r = dist.log_prob(A)
+        same(r, A, "log_prob(A)")
+        r.fill_(123.0)  # the caller edits the tensor it received
+        same(dist.log_prob(A), A, "log_prob(A) after the tensor returned earlier was edited in place")
+        cl.add("history_edit_result_in_place")
     return Info(nontrivial=(eos is not None and "distinct_samples" in cl) or "sample_shorter_than_limit" in cl, classes=sorted(cl))
 
 
@@ -462,10 +721,21 @@ def _greedy_cases(tier):
                 row.append(f)
             scores.append(row)
         in_lens = draw(st.one_of(st.lists(st.integers(0, T), min_size=N, max_size=N), st.none()))
-        return {"V": V, "N": N, "T": T, "blank": blank, "is_probs": is_probs, "batch_first": draw(st.booleans()),
+        case = {"V": V, "N": N, "T": T, "blank": blank, "is_probs": is_probs, "batch_first": draw(st.booleans()),
                 "scores": scores, "in_lens": in_lens, "module": draw(st.booleans()),
                 # what batching code leaves in the frames past an element's length (pad_sequence with -inf, uninitialised memory)
                 "pad_fill": draw(st.sampled_from([None, None, "-inf", "nan", "inf", 1e30]))}
+        # memory layouts of the two tensor arguments, float64 scores
+        case["layouts"] = {"logits": draw(st.sampled_from(dl.LAYOUT_CHOICES)),
+                           "in_lens": draw(st.sampled_from(["contiguous", "offset", "strided", "contiguous"]))}
+        case["dtype"] = draw(st.sampled_from(["float32", "float32", "float64"]))
+        # value classes: logits scaled by 2**8 / 2**16 (log-probabilities down to about -2e5); probabilities exactly 0 and 1
+        # (one-hot frames)
+        if is_probs:
+            case["one_hot"] = draw(st.sampled_from([False, False, True]))
+        else:
+            case["scale"] = draw(st.sampled_from([0, 0, 0, 8, 16]))
+        return case
 
     return _s()
 
@@ -473,9 +743,13 @@ def _greedy_cases(tier):
 @subcheck("C07", "ctc_greedy", _greedy_cases, 1500, 40000,
           doc="ctc_greedy_search (T 0..6|9, V 1..4, N 1..3, in_lens unset/mixed incl. 0, every blank index incl. negative, both layouts, "
               "logits or probabilities; per frame distinct scores so the arg-max is unique) vs loop: arg-max per valid frame, collapse "
-              "repeats, drop blanks, summed (multiplied) best scores",
+              "repeats, drop blanks, summed (multiplied) best scores. logits / in_lens also as offset / column-slice / transposed / "
+              "strided views, float64 scores, logits scaled by 2**8 / 2**16, one-hot probability frames (exactly 0 and 1), -inf / NaN / "
+              "+inf / 1e30 in the frames past in_lens",
           required_classes=["repeat_separated_by_blank", "mixed_lens", "is_probs", "batch_first", "negative_blank", "repeat_collapsed",
-                            "non_finite_fill_past_length"])
+                            "non_finite_fill_past_length", "layout_offset", "layout_transposed", "layout_col_slice",
+                            "layout_strided", "in_lens_layout_offset", "in_lens_layout_strided", "float64_scores",
+                            "extreme_logits", "probabilities_exactly_0_and_1"])
 def _greedy_check(case):
     import torch
     from pydrobert.torch.functional import ctc_greedy_search
@@ -483,11 +757,18 @@ def _greedy_check(case):
 
     V, N, T, blank_arg = case["V"], case["N"], case["T"], case["blank"]
     blank = blank_arg % V
+    dtype = torch.float64 if case.get("dtype") == "float64" else torch.float32
+    lay = case.get("layouts", {})
     if case["is_probs"]:
-        vals = [[[v / sum(f) for v in f] for f in row] for row in case["scores"]]
+        if case.get("one_hot"):
+            # probabilities exactly 0 and 1: all mass on the frame's best label
+            vals = [[[1.0 if v == max(f) else 0.0 for v in f] for f in row] for row in case["scores"]]
+        else:
+            vals = [[[v / sum(f) for v in f] for f in row] for row in case["scores"]]
     else:
-        vals = [[[v / 4 for v in f] for f in row] for row in case["scores"]]
-    x = torch.tensor(vals, dtype=torch.float32).view(N, T, V)
+        sc = 2 ** case.get("scale", 0)
+        vals = [[[v * sc / 4 for v in f] for f in row] for row in case["scores"]]
+    x = torch.tensor(vals, dtype=dtype).view(N, T, V)
     filled = False
     if case.get("pad_fill") is not None and case["in_lens"] is not None:
         for n in range(N):
@@ -496,7 +777,9 @@ def _greedy_check(case):
                 filled = True
     if not case["batch_first"]:
         x = x.transpose(0, 1).contiguous()
-    in_lens = None if case["in_lens"] is None else torch.tensor(case["in_lens"], dtype=torch.long)
+    x = dl.relayout(x, lay.get("logits", "contiguous"))
+    in_lens = None if case["in_lens"] is None else dl.relayout(torch.tensor(case["in_lens"], dtype=torch.long),
+                                                               lay.get("in_lens", "contiguous"))
     if case["module"]:
         max_, paths, out_lens = CTCGreedySearch(blank_arg, case["batch_first"], case["is_probs"])(x, in_lens)
     else:
@@ -545,4 +828,364 @@ def _greedy_check(case):
         cl.add("T_0")
     if filled:
         cl.add("non_finite_fill_past_length")
+    cl.update(dl.layout_classes([lay.get("logits")]))
+    if case["in_lens"] is not None and lay.get("in_lens", "contiguous") != "contiguous":
+        cl.add("in_lens_layout_" + lay["in_lens"])
+    if case.get("dtype") == "float64":
+        cl.add("float64_scores")
+    if case.get("scale"):
+        cl.add("extreme_logits")
+    if case.get("one_hot") and T:
+        cl.add("probabilities_exactly_0_and_1")
+    return Info(nontrivial="repeat_separated_by_blank" in cl, classes=sorted(cl))
+
+
+# ================================================================ sizes at implementation thresholds
+#
+# One dimension at 15/16/17 ... 1023/1024/1025/2049; the data is a pure function of a few generated integers
+# (declayout.np_mix / lcg_ints); the oracles are NumPy float64 loops over the definitions (no torch).
+
+
+def _seq_large_cases(tier):
+    quick = tier == "quick"
+
+    @st.composite
+    def _s(draw):
+        big = draw(st.sampled_from(["T", "B", "V"]))
+        T, B, V = draw(st.sampled_from([3, 2, 5, 1])), draw(st.sampled_from([2, 1, 3])), draw(st.sampled_from([3, 2, 4, 1]))
+        hi = 1025 if quick else 2049
+        if big == "T":
+            T = draw(dl.threshold_sizes(15, max(hi, 2049)))
+        elif big == "B":
+            B = draw(dl.threshold_sizes(15, max(hi, 2049)))
+        else:
+            V = draw(dl.threshold_sizes(15, max(hi, 2049)))
+        A = draw(st.sampled_from([None, None, 1, 2]))  # an extra leading dimension (rank 3)
+        rank = 2 if A is None else 3
+        pos = draw(st.integers(0, rank - 1))
+        eos = draw(st.sampled_from([None, 0, V - 1, V // 2, V, -1]))
+        return {"big": big, "T": T, "B": B, "V": V, "A": A, "pos": pos, "neg_dim": draw(st.booleans()), "eos": eos,
+                "seed": draw(st.integers(0, 2 ** 31 - 1)),
+                "layouts": {"logits": draw(st.sampled_from(dl.LAYOUT_CHOICES)), "hyp": draw(st.sampled_from(dl.LAYOUT_CHOICES))},
+                "dtype": draw(st.sampled_from(["float32", "float64"])), "junk": draw(st.sampled_from([None, "nan", "-inf", 1e30])),
+                "packed": draw(st.booleans())}
+
+    return _s()
+
+
+def _np_log_softmax(x):
+    import numpy as np
+
+    m = x.max(-1, keepdims=True)
+    return x - m - np.log(np.exp(x - m).sum(-1, keepdims=True))
+
+
+@subcheck("C07", "seq_large", _seq_large_cases, 400, 4000,
+          doc="sequence_log_probs with ONE size at an implementation threshold: the sequence dimension, a batch dimension or the number "
+              "of classes in 15/16/17 ... 1023/1024/1025, 2049; rank 2 or 3, sequence dimension anywhere; the first eos of sequence b sits "
+              "at a threshold position (14..16, 30..32, ..., 1022..1024, T-1) or nowhere; tokens in [-1, V] (out-of-vocabulary at both "
+              "ends), garbage ids / scores in the ignored positions; every output entry compared with a NumPy float64 loop over the "
+              "definition (tolerance 4*T*2^-24 relative). Rank-2 cases also as a packed sequence with lengths at threshold values, "
+              "against NumPy and against the padded call",
+          required_classes=["big_T", "big_B", "big_V", "about_16", "about_64", "about_256", "about_1024", "about_2048",
+                            "first_eos_at_or_after_position_127", "eos_inside_with_tokens_after", "packed", "rank_3"])
+def _seq_large_check(case):
+    import numpy as np
+    import torch
+    from torch.nn.utils.rnn import pack_padded_sequence
+    from pydrobert.torch.functional import sequence_log_probs
+
+    T, B, V, A, eos = case["T"], case["B"], case["V"], case["A"], case["eos"]
+    R = (A or 1) * B
+    cl = set()
+    r_i, t_i = np.arange(R)[:, None], np.arange(T)[None, :]
+    hyp = dl.np_mix(case["seed"], r_i, t_i) % (V + 2) - 1  # (R, T), values -1..V
+    cands = sorted({p for x in dl.THRESHOLDS for p in (x - 1, x, x + 1) if p < T} | {max(T - 1, 0), T})
+    first = np.array([cands[int(v) % len(cands)] for v in dl.np_mix(case["seed"] + 1, np.arange(R))])  # T = no eos
+    if eos is not None:
+        repl = (eos + 1) % V if (V > 1 and 0 <= eos < V) else (-1 if eos != -1 else V)
+        before = t_i < first[:, None]
+        hyp = np.where(before & (hyp == eos), repl, hyp)
+        hyp = np.where(t_i == first[:, None], eos, hyp)
+    logits_i = dl.np_mix(case["seed"] + 2, r_i[:, :, None], t_i[:, :, None], np.arange(V)[None, None, :]) % 65 - 32  # (R, T, V)
+    x = logits_i.astype(np.float64) / 4
+    # -- the definition
+    lsm = _np_log_softmax(x)
+    in_vocab = (hyp >= 0) & (hyp < V)
+    pick = np.take_along_axis(lsm, np.clip(hyp, 0, V - 1)[:, :, None], 2)[:, :, 0]
+    if eos is not None:
+        is_eos = hyp == eos
+        first_eos = np.where(is_eos.any(1), is_eos.argmax(1), T)
+    else:
+        first_eos = np.full(R, T)
+    counted = in_vocab & (t_i <= first_eos[:, None])
+    expected = np.where(counted, pick, 0.0).sum(1)
+    ignored = ~counted
+    # -- garbage in the ignored positions
+    hyp_t = torch.from_numpy(hyp.copy())
+    dtype = torch.float64 if case["dtype"] == "float64" else torch.float32
+    log_t = torch.from_numpy(x.copy()).to(dtype)
+    if case["junk"] is not None and ignored.any():
+        after = torch.from_numpy(t_i > first_eos[:, None])
+        hyp_t[after] = 1 << 40
+        log_t[torch.from_numpy(ignored)] = float(case["junk"])
+        cl.add("garbage_in_ignored_positions")
+    # -- shapes: (R, T) -> ([A,] B, T) -> sequence dimension moved to `pos`
+    lead = [B] if A is None else [A, B]
+    rank = len(lead) + 1
+    pos = case["pos"]
+    hyp_in = hyp_t.view(lead + [T]).movedim(-1, pos).contiguous()
+    log_in = log_t.view(lead + [T, V]).movedim(-2, pos).contiguous()
+    dim = pos - rank if case["neg_dim"] else pos
+    rel = max(1e-5, 4 * T * 2.0 ** -24)
+    got = sequence_log_probs(dl.relayout(log_in, case["layouts"]["logits"]), dl.relayout(hyp_in, case["layouts"]["hyp"]), dim, eos)
+    require(list(got.shape) == lead, "result shape", list(got.shape), lead)
+    g = got.reshape(-1).double().numpy()
+    bad = np.nonzero(~(np.abs(g - expected) <= 1e-5 + rel * np.maximum(np.abs(g), np.abs(expected))))[0]
+    require(bad.size == 0, "sequence log-probability differs from the definition (NumPy float64) at flat index %s" % bad[:3].tolist(),
+            g[bad[:3]].tolist(), {"expected": expected[bad[:3]].tolist(), "first_eos": first_eos[bad[:3]].tolist()})
+    # -- the same data as a packed sequence (rank 2): eos is ignored, lengths cut the sequences
+    if case["packed"] and A is None and T >= 1:
+        lens = np.array([max(1, cands[int(v) % len(cands)]) for v in dl.np_mix(case["seed"] + 3, np.arange(B))])
+        lens[0] = T
+        counted_p = in_vocab & (t_i < lens[:, None])
+        exp_p = np.where(counted_p, pick, 0.0).sum(1)
+        log_p = torch.from_numpy(x.copy()).to(dtype)
+        if case["junk"] is not None:
+            log_p[torch.from_numpy(~counted_p)] = float(case["junk"])
+        packed = pack_padded_sequence(log_p.transpose(0, 1), torch.from_numpy(lens), enforce_sorted=False)
+        hyp_p = torch.from_numpy(hyp.copy())
+        gp = sequence_log_probs(packed, hyp_p if pos == 1 else hyp_p.t().contiguous(), pos - 2 if case["neg_dim"] else pos, None)
+        require(list(gp.shape) == [B], "result shape (packed)", list(gp.shape), [B])
+        gpn = gp.double().numpy()
+        badp = np.nonzero(~(np.abs(gpn - exp_p) <= 1e-5 + rel * np.maximum(np.abs(gpn), np.abs(exp_p))))[0]
+        require(badp.size == 0, "packed: sequence log-probability differs from the definition at element %s" % badp[:3].tolist(),
+                gpn[badp[:3]].tolist(), {"expected": exp_p[badp[:3]].tolist(), "lens": lens[badp[:3]].tolist()})
+        hyp_m = torch.from_numpy(np.where(t_i < lens[:, None], hyp, -1))
+        gpad = sequence_log_probs(torch.from_numpy(x.copy()).to(dtype), hyp_m, 1, None).double().numpy()
+        require(bool((np.abs(gpad - gpn) <= 1e-5 + rel * np.abs(gpn)).all()), "packed and padded input disagree",
+                gpn[:4].tolist(), gpad[:4].tolist())
+        cl.add("packed")
+        if len(set(lens.tolist())) >= 2:
+            cl.add("two_distinct_lengths")
+    cl.add("big_" + case["big"])
+    sc = dl.size_class("x", {"T": T, "B": B, "V": V}[case["big"]])
+    if sc:
+        cl.add(sc[2:])
+    cl.add("rank_%d" % rank)
+    if eos is not None and bool((first_eos >= 127).any() and (first_eos < T).any() and ((first_eos >= 127) & (first_eos < T)).any()):
+        cl.add("first_eos_at_or_after_position_127")
+    inside = False
+    if eos is not None:
+        tail = in_vocab & (t_i > first_eos[:, None]) & (hyp != eos)
+        inside = bool(tail.any())
+        if inside:
+            cl.add("eos_inside_with_tokens_after")
+    cl.update(dl.layout_classes(case["layouts"].values()))
+    if case["dtype"] == "float64":
+        cl.add("float64_logits")
+    return Info(nontrivial=inside or "two_distinct_lengths" in cl, classes=sorted(cl))
+
+
+def _walk_large_cases(tier):
+    quick = tier == "quick"
+
+    @st.composite
+    def _s(draw):
+        big = draw(st.sampled_from(["T", "N", "V", "T"]))
+        V, T, batch = draw(st.sampled_from([3, 2])), draw(st.sampled_from([3, 2, 4, 1])), draw(st.sampled_from([2, None, 1, 3]))
+        if big == "T":
+            T = draw(dl.threshold_sizes(15, 257 if quick else 1025))
+        elif big == "N":
+            batch = draw(dl.threshold_sizes(15, 1025 if quick else 2049))
+        else:
+            V = draw(dl.threshold_sizes(15, 1025 if quick else 2049))
+        kind = draw(st.sampled_from(["pos", "none", "pos", "neg"]))
+        eos = None if kind == "none" else (draw(st.sampled_from([0, V - 1, V // 2])) if kind == "pos" else draw(st.sampled_from([-1, -V])))
+        late = None
+        if big == "T" and draw(st.sampled_from([True, False])):
+            # a model that counts its steps (V = 2: one token besides eos) and all but forbids eos before step `late`:
+            # walks that END at a late step
+            T = draw(st.sampled_from([129, 257, 130, 258] + ([] if quick else [1025])))
+            late = draw(st.sampled_from([127, 128, 126] + ([255, 256] if T >= 257 else []) + ([1023, 1024] if T >= 1025 else [])))
+            V, eos = 2, draw(st.sampled_from([0, 1, -1]))
+        return {"big": big, "late_eos": late, "eos": eos, "max_iters": T, "batch": batch,
+                "lm_small": {"V": V, "M": draw(st.sampled_from([3, 5, 7, 2])), "mult": draw(st.sampled_from([2, 1, 3])),
+                             "C": draw(st.integers(1, 3)), "seed": draw(st.integers(0, 2 ** 31 - 1))},
+                "cond_seed": draw(st.integers(0, 2 ** 31 - 1)), "seed": draw(st.integers(0, 2 ** 31 - 1)),
+                "eos_bias": draw(st.sampled_from([-24, 0, -8, -48, 8])), "wrapper_batched": draw(st.booleans()),
+                "validate_args": draw(st.sampled_from([None, True, False])),
+                "cond_layout": draw(st.sampled_from(["contiguous", "offset", "strided"]))}
+
+    return _s()
+
+
+@subcheck("C07", "walk_large", _walk_large_cases, 260, 2500,
+          doc="RandomWalk with ONE size at an implementation threshold: max_iters (15/16/17 ... 129, 257; thorough ... 1025), batch "
+              "(... 1025 | 2049) or vocabulary (... 1025 | 2049); HashLM table and conditions expanded from generated seeds; for long "
+              "limits also a model that counts its steps and all but forbids eos before a late step, so walks END at steps 127..129, "
+              "255..257. Every path judged as in `walk` (chain by a cached pure-Python mirror, tolerance 4*S*2^-24 relative), incl. the "
+              "wrapper's log_prob and sequence_log_probs of the model's outputs",
+          required_classes=["big_T", "big_N", "big_V", "about_16", "about_64", "about_256", "about_1024", "eos_after_127_steps",
+                            "stopped_by_limit", "stopped_by_eos", "elements_stop_at_different_steps"])
+def _walk_large_check(case):
+    from pydrobert.torch.modules import RandomWalk
+
+    small = dict(case["lm_small"])
+    T, late = case["max_iters"], case.get("late_eos")
+    if late is not None:
+        small.update(M=small["V"] + 2 + small["V"] * T + 1, mult=1)  # states never wrap: the state counts sum(token + 1)
+    spec = declm.expand_spec(small)
+    V, C = spec["V"], len(spec["cond"])
+    e = None if case["eos"] is None else case["eos"] % V
+    if late is not None:
+        inc = (1 - e) + 1  # V == 2: every step before the end adds this much to the state
+        for s_ in range(spec["M"]):
+            spec["table"][s_][e] = -160 if s_ < V + 1 + late * inc else 40
+    elif e is not None and case["eos_bias"]:
+        for c in range(C):
+            spec["cond"][c][e] += case["eos_bias"] if c % 2 == 0 else -case["eos_bias"]
+    N = case["batch"] or 1
+    conds = dl.lcg_ints(case["cond_seed"], N, 0, C - 1)
+    pylm = declm.PyLM(spec)
+    lm = declm.HashLM(spec)
+    walk = RandomWalk(lm, case["eos"])
+    cl = set()
+    y, lens, lp = judge_walk(case, spec, lm, walk, conds, case["batch"], T, case["seed"], cl, pylm.chain,
+                             rel=max(1e-5, 4 * T * 2.0 ** -24))
+    S = y.size(0)
+    cl.add("big_" + case["big"])
+    sc = dl.size_class("x", {"T": S, "N": N, "V": V}[case["big"]])
+    if sc:
+        cl.add(sc[2:])
+    cl.add("eos_unset" if e is None else "eos_set")
+    return Info(nontrivial="elements_stop_at_different_steps" in cl, classes=sorted(cl))
+
+
+def _greedy_large_cases(tier):
+    quick = tier == "quick"
+
+    @st.composite
+    def _s(draw):
+        big = draw(st.sampled_from(["T", "N", "V"]))
+        V, N, T = draw(st.sampled_from([3, 2, 4])), draw(st.sampled_from([2, 1, 3])), draw(st.sampled_from([4, 5, 3, 6]))
+        hi = 1025 if quick else 2049
+        if big == "T":
+            T = draw(dl.threshold_sizes(15, max(hi, 2049)))
+        elif big == "N":
+            N = draw(dl.threshold_sizes(15, max(hi, 2049)))
+        else:
+            V = draw(dl.threshold_sizes(15, max(hi, 2049)))
+        return {"big": big, "V": V, "N": N, "T": T, "blank": draw(st.sampled_from([-1, 0, V - 1, V // 2, -V, 16 % V])),
+                "is_probs": draw(st.booleans()), "batch_first": draw(st.booleans()), "seed": draw(st.integers(0, 2 ** 31 - 1)),
+                "lens_kind": draw(st.sampled_from(["mixed", "unset", "mixed", "full"])),
+                "pad_fill": draw(st.sampled_from([None, "-inf", "nan", 1e30])),
+                "layouts": {"logits": draw(st.sampled_from(dl.LAYOUT_CHOICES)),
+                            "in_lens": draw(st.sampled_from(["contiguous", "offset", "strided"]))},
+                "dtype": draw(st.sampled_from(["float32", "float64"])), "module": draw(st.booleans())}
+
+    return _s()
+
+
+@subcheck("C07", "greedy_large", _greedy_large_cases, 300, 3000,
+          doc="ctc_greedy_search with ONE size at an implementation threshold (T, N or V in 15/16/17 ... 1023/1024/1025, 2049): per frame a "
+              "permutation of distinct scores (v -> a*(v+1) mod P, P prime > V) whose maximum is moved onto a label drawn from {blank, A, "
+              "B}; in_lens unset / full / at threshold values; garbage past the lengths; oracle = NumPy arg-max + Python collapse per "
+              "element, float64 score (tolerance 4*T*2^-24 relative)",
+          required_classes=["big_T", "big_N", "big_V", "about_16", "about_64", "about_256", "about_1024", "about_2048",
+                            "repeat_separated_by_blank", "repeat_collapsed", "mixed_lens", "is_probs", "path_of_128_or_more_labels"])
+def _greedy_large_check(case):
+    import numpy as np
+    import torch
+    from pydrobert.torch.functional import ctc_greedy_search
+    from pydrobert.torch.modules import CTCGreedySearch
+
+    V, N, T, blank_arg = case["V"], case["N"], case["T"], case["blank"]
+    blank = blank_arg % V
+    cl = set()
+    P = dl.next_prime(V + 1)
+    n_i, t_i, v_i = np.arange(N)[:, None, None], np.arange(T)[None, :, None], np.arange(V)[None, None, :]
+    a = 1 + dl.np_mix(case["seed"], n_i, t_i) % (P - 1)
+    w = (a * (v_i + 1)) % P  # (N, T, V): per frame distinct integers in 1..P-1
+    labels = np.array([blank, int(dl.np_mix(case["seed"] + 1, 0)) % V, int(dl.np_mix(case["seed"] + 2, 0)) % V])
+    target = labels[np.array([1, 0, 1, 0, 2])[dl.np_mix(case["seed"] + 3, n_i[:, :, 0], t_i[:, :, 0]) % 5]]  # (N, T)
+    m = w.argmax(2)
+    wm = np.take_along_axis(w, m[:, :, None], 2)
+    wt = np.take_along_axis(w, target[:, :, None], 2)
+    np.put_along_axis(w, m[:, :, None], wt, 2)
+    np.put_along_axis(w, target[:, :, None], wm, 2)
+    if case["is_probs"]:
+        # peaky, so that the product over thousands of frames does not underflow
+        wf = w.astype(np.float64)
+        np.put_along_axis(wf, target[:, :, None], 1000.0 * P, 2)
+        x = wf / wf.sum(2, keepdims=True)
+        best = x.max(2)
+    else:
+        x = w.astype(np.float64) / 4
+        best = (x - x.max(2, keepdims=True) - np.log(np.exp(x - x.max(2, keepdims=True)).sum(2, keepdims=True))).max(2)
+    arg = x.argmax(2)
+    if case["lens_kind"] == "unset":
+        lens = None
+    elif case["lens_kind"] == "full":
+        lens = [T] * N
+    else:
+        cands = sorted({p for q in dl.THRESHOLDS for p in (q - 1, q, q + 1) if p <= T} | {0, T, max(T - 1, 0), T // 2})
+        lens = [cands[int(v) % len(cands)] for v in dl.np_mix(case["seed"] + 4, np.arange(N))]
+    dtype = torch.float64 if case["dtype"] == "float64" else torch.float32
+    xt = torch.from_numpy(x.copy()).to(dtype)
+    if case["pad_fill"] is not None and lens is not None:
+        for n in range(N):
+            if lens[n] < T:
+                xt[n, lens[n]:] = float(case["pad_fill"])
+                cl.add("non_finite_fill_past_length")
+    if not case["batch_first"]:
+        xt = xt.transpose(0, 1).contiguous()
+    xt = dl.relayout(xt, case["layouts"]["logits"])
+    in_lens = None if lens is None else dl.relayout(torch.tensor(lens, dtype=torch.long), case["layouts"]["in_lens"])
+    if case["module"]:
+        max_, paths, out_lens = CTCGreedySearch(blank_arg, case["batch_first"], case["is_probs"])(xt, in_lens)
+    else:
+        max_, paths, out_lens = ctc_greedy_search(xt, in_lens, blank_arg, case["batch_first"], case["is_probs"])
+    require(list(max_.shape) == [N] and list(out_lens.shape) == [N], "result shapes", [list(max_.shape), list(out_lens.shape)], [N])
+    require(list(paths.shape) == ([N, T] if case["batch_first"] else [T, N]), "paths shape", list(paths.shape), [N, T])
+    if not case["batch_first"]:
+        paths = paths.t()
+    rel = max(1e-5, 4 * T * 2.0 ** -24)
+    max_l, ol_l = max_.tolist(), out_lens.tolist()
+    for n in range(N):
+        L = T if lens is None else lens[n]
+        seq = arg[n, :L].tolist()
+        exp = []
+        for t, lab in enumerate(seq):
+            if lab != blank and (t == 0 or lab != seq[t - 1]):
+                exp.append(lab)
+            if t > 0 and lab == seq[t - 1] and lab != blank:
+                cl.add("repeat_collapsed")
+        # a label, blanks, the same label again
+        last_lab, gap = None, False
+        for lab in seq:
+            if lab == blank:
+                gap = last_lab is not None
+            else:
+                if gap and lab == last_lab:
+                    cl.add("repeat_separated_by_blank")
+                last_lab, gap = lab, False
+        score = float(np.prod(best[n, :L])) if case["is_probs"] else float(best[n, :L].sum())
+        require(int(ol_l[n]) == len(exp), "out_lens[%d]" % n, int(ol_l[n]), len(exp))
+        got = paths[n, : len(exp)].tolist()
+        require(got == exp, "greedy path of element %d" % n, got[:40], exp[:40])
+        require(close(float(max_l[n]), score, rel=rel, abs_=1e-6), "greedy score of element %d" % n, float(max_l[n]), score)
+        if len(exp) >= 128:
+            cl.add("path_of_128_or_more_labels")
+    if lens is not None and len(set(lens)) >= 2:
+        cl.add("mixed_lens")
+    if case["is_probs"]:
+        cl.add("is_probs")
+    cl.add("big_" + case["big"])
+    sc = dl.size_class("x", {"T": T, "N": N, "V": V}[case["big"]])
+    if sc:
+        cl.add(sc[2:])
+    cl.update(dl.layout_classes([case["layouts"]["logits"]]))
+    if case["dtype"] == "float64":
+        cl.add("float64_scores")
     return Info(nontrivial="repeat_separated_by_blank" in cl, classes=sorted(cl))
